@@ -14,6 +14,15 @@ TABLE = [
     ("loop_else_emit", ["n = 0", "while n < 2:", "    n += 1", "else:", "    emit(5)", "return n"]),
     ("keyword_argument", ["return f(a=x)"]),
     ("keyword_argument_nested", ["def inner(t: int, u: int) -> int:", "    return t - u", "return inner(u=x, t=y)"]),
+    ("keyword_argument_panic", ["if x > 100:", "    panic('boom', signal=3)", "return x"]),
+    ("keyword_argument_exit", ["if x > 100:", "    exit('bye', 1, code=3)", "return x"]),
+    ("keyword_argument_array", ["t = array(x, y, extra=1)", "return x"]),
+    ("keyword_argument_result", ["result('tag', value=x)", "return x"]),
+    ("keyword_argument_range", ["s = 0", "for i in range(stop=3):", "    s += i", "return s"]),
+    ("keyword_argument_int", ["return int(x=y)"]),
+    ("keyword_argument_qubit", ["q = qubit(label=1)", "discard(q)", "return x"]),
+    ("keyword_argument_method", ["return x.__add__(other=y)"]),
+    ("keyword_argument_len", ["t = array(x, y)", "return len(obj=t)"]),
     ("nested_decorator", ["@twice", "def inner(t: int) -> int:", "    return t + 1", "return inner(x)"]),
     ("nested_default", ["def inner(t: int = 5) -> int:", "    return t", "return inner()"]),
     ("nested_default_used_positionally", ["def inner(t: int, u: int = 7) -> int:", "    return t + u", "return inner(x)"]),
@@ -147,7 +156,18 @@ def twice(fn):
 
 ctx = _Ctx
 G = 0
+from guppylang.std.builtins import array, exit, result  # noqa: E402
+from guppylang.std.quantum import qubit, discard  # noqa: E402
 '''
+
+
+def silently_dropped_clause(src: str):
+    """Clauses for which the checked program has no representation at all: if the front end accepts a program that contains
+    one, the clause was dropped.  Currently: keyword arguments of calls (checked calls carry positional arguments only)."""
+    for n in ast.walk(ast.parse(src)):
+        if isinstance(n, ast.Call) and n.keywords:
+            return "keyword argument `" + ast.unparse(n.keywords[0]) + "` in `" + ast.unparse(n) + "`"
+    return None
 
 
 def coverage() -> dict:
